@@ -21,6 +21,17 @@ CHECKS = {
             'available to rebuild them). Lines on which elimination without pivoting has a (near-)zero pivot get a proportionally wider tolerance '
             'and are counted in evidence. delj-on references are float (exp); quick tier thins the parameter lattice (cap reported).',
             'DESIGN.md §3 C02'),
+    'C04': ('model_checking',
+            'exhaustive enumeration of frozen/nomut patterns x subsets of populations x parameter lattice x driver kind, each on every unit density, with a kernel-level replay of the driver loop and exact conservation identities as oracle',
+            'For 2-5 populations every frozen pattern (2^d), nomut pattern (2-D), size/selection/migration/step-count combination and both driver '
+            'kinds is run on every unit density (plus zero and a dense density). On each run: the marginal of every frozen population is unchanged at '
+            'interior frequencies; the result equals an independent replay of the documented loop through the real kernels; total mass changes by '
+            'exactly influx minus the two corner outflows (no other term); frozen/nomut populations get no influx. For every non-empty proper subset '
+            'S the S-marginal of the joint run equals integrating the S-marginal alone (m=0, gamma=0). Every frozen-with-migration placement is '
+            'rejected and every other accepted.',
+            'One grid for all axes (driver API); the delj switch is off here (C02 covers it); isolated-marginal clause asserted where all S '
+            'frequencies are interior; quick tier covers a third of the parameter product per frozen pattern on an asymmetric grid (cap reported).',
+            'DESIGN.md §3 C04'),
     'C05': ('model_checking',
             'operator extraction on every unit density for each sampling path x sample sizes x grids, against exact Fraction integrals of binomial probabilities times piecewise-linear basis functions and exact trapezoid sums',
             'For the semi-analytic path (1-5 D, n=1..40 in 1-D, {1,2,5,40}^2, {1,2,5}^3, {1,2,3}^4,5), the direct path with and without '
